@@ -177,8 +177,16 @@ void sample_states(const char *where) {
     W->boundary_id++;
     for (auto &s : W->slots) {
         m_mod_t *h = s.handle();
-        if (!h) continue;
-        int st = (int)m_mod_state(h);
+        // no reference left to ask through: the module was deregistered with the program's last reference (it is gone, or a ZOMBIE kept by the library)
+        if (!h && !(s.raw && s.st != ST_NONE && s.st != ST_ZOMBIE)) continue;
+        int st = h ? (int)m_mod_state(h) : ST_ZOMBIE;
+        if (s.start_refused_due) {
+            s.start_refused_due = false;
+            if (on("C01") && (st == ST_RUNNING || st == ST_PAUSED)) {
+                oracle_eval("C01.refused-start-stops");
+                VIOL("C01", st == ST_PAUSED ? "C01:refused-start-not-stopped:paused" : "C01:refused-start-not-stopped", "the start callback of module slot %d returned false while the module was %s; it is still %s afterwards instead of STOPPED", s.idx, st_name(st), st_name(st));
+            }
+        }
         if (st != s.st) {
             int old = s.st;
             s.st = st;
@@ -323,7 +331,9 @@ static bool cb_start(m_mod_t *self) {
         // a start that is refused (or undone inside the callback) need not be announced (the statement does not say)
         for (auto &o : W->c19_obls) if (!o.done && o.sender == slot && o.topic == M_PS_MOD_STARTED && o.gseq >= W->frames.back().gseq - 2) o.done = true;
     }
+    int st_at_return = state_of(slot);
     cb_exit(slot, CB_START);
+    if (!ret && (st_at_return == ST_RUNNING || st_at_return == ST_PAUSED)) W->slots[slot].start_refused_due = true;
     return ret != 0;
 }
 static void cb_stop(m_mod_t *self) {
@@ -360,6 +370,12 @@ static void observe(const m_evt_t *e, EvtObs &o) {
         o.system = p->system;
         o.sender = p->sender;
         o.sender_slot = p->sender ? slot_of(p->sender) : -1;
+        if (p->sender) {
+            // the sender handed over is a module handle the recipient may use (name/state getters work on a deregistered one too)
+            const char *snm = m_mod_name((const m_mod_t *)p->sender);
+            if (o.sender_slot >= 0 && (!snm || W->slots[o.sender_slot].name != snm))
+                VIOL(W->property.c_str(), "sender-handle-invalid", "the sender handed over with a message (slot %d, registered as %s) answers to the name %s", o.sender_slot, W->slots[o.sender_slot].name.c_str(), snm ? snm : "NULL");
+        }
         o.topic = p->topic;
         if (p->topic) o.topic_s = p->topic;
         o.data = p->data;
@@ -423,6 +439,11 @@ static void handle_evt(m_mod_t *self, const m_queue_t *evts, int hidx) {
             }
     W->cur_delivery.push_back(&d);
     run_script(slot, CB_EVT, n);
+    if (W->slots[slot].armed_dereg) {
+        W->slots[slot].armed_dereg = false;
+        Op u; u.where = "D"; u.name = "dereg"; u.a = {(long)slot};
+        exec_op(u, true, slot);
+    }
     W->cur_delivery.pop_back();
     cb_exit(slot, CB_EVT);
 }
@@ -790,6 +811,7 @@ void exec_op(const Op &op, bool in_cb, int cb_slot) {
         return;
     }
     int m = pick_slot(op.arg(0));
+    if (n == "arm_dereg") { if (m >= 0) W->slots[m].armed_dereg = true; return; }
     if (n == "seteval") { if (m >= 0) { W->slots[m].eval_flag = op.arg(1) != 0; W->slots[m].eval_changed_gseq = R->gseq; } return; }
     if (n == "errno") { if (W->errno_ops) errno = (int)op.arg(0); sim::tr("set_errno", op.arg(0)); return; }
     if (n == "ret") { if (!g_start_ret.empty()) g_start_ret.back() = (int)op.arg(0); return; }
